@@ -210,6 +210,7 @@ type TableSpec struct {
 	Sem      []Clause
 	Requires []Clause
 	Modifies []Expr
+	Results  []string
 	StrMap   bool   // map[string]string literal: Sem is a lemma per entry and the contract of a lookup
 	ValVar   string
 	Keys []string // expected key set (optional; if given, must equal the literal's)
@@ -521,6 +522,21 @@ func (p *parser) parseTable() (*TableSpec, error) {
 	}
 	if err := p.expectP(")"); err != nil {
 		return nil, err
+	}
+	if p.acceptP("(") {
+		for !p.isP(")") {
+			id, err := p.ident()
+			if err != nil {
+				return nil, err
+			}
+			tb.Results = append(tb.Results, id)
+			if !p.acceptP(",") {
+				break
+			}
+		}
+		if err := p.expectP(")"); err != nil {
+			return nil, err
+		}
 	}
 	for {
 		if p.acceptKw("props") {
